@@ -68,12 +68,21 @@ def entry_points(d):
             ("python -m conda_content_trust.cli", [PY, "-m", "conda_content_trust.cli"])]
 
 
-def run_cli(cmd, args, cwd, extra_path=(), env_extra=None):
+def run_cli(cmd, args, cwd, extra_path=(), env_extra=None, dead_stdout=False):
     env = {k: v for k, v in os.environ.items() if k not in ("PYTHONPATH", "VERIF_REEXEC")}
     env["PYTHONPATH"] = os.pathsep.join(list(extra_path) + [REPO])
     env["PYTHONDONTWRITEBYTECODE"] = "1"
     env["PYTHONIOENCODING"] = "utf-8"
     env.update(env_extra or {})
+    if dead_stdout:
+        # stdout is a pipe whose reader has gone away (`... | head -0`, a dead log collector)
+        r, w = os.pipe()
+        os.close(r)
+        try:
+            p = subprocess.run(cmd + args, cwd=cwd, env=env, stdout=w, stderr=subprocess.PIPE, timeout=120)
+        finally:
+            os.close(w)
+        return p.returncode, "", p.stderr.decode("utf-8", "replace")
     p = subprocess.run(cmd + args, cwd=cwd, env=env, stdout=subprocess.PIPE, stderr=subprocess.PIPE, timeout=120)
     return p.returncode, p.stdout.decode("utf-8", "replace"), p.stderr.decode("utf-8", "replace")
 
@@ -101,6 +110,7 @@ MALFORMED = ["truncated", "not-object", "no-signed", "no-type", "type-not-string
 def _verify_cases_cfg(draw):
     c = draw(_verify_cases())
     c["config"] = draw(st.one_of(st.none(), configrun.configs))
+    c["dead_stdout"] = draw(st.sampled_from([0, 0, 1, 2, 3]))
     return c
 
 
@@ -236,6 +246,40 @@ def check_verify(case):
                                 % (name, "reports" if ok_text else "does not report", want), bucket="stdout vs verdict [%s]" % name)
         if len({(r[1] == 0) for r in results}) != 1:
             raise Violation("entry points disagree: %r" % results, bucket="entry points disagree")
+        # nobody reads stdout any more: success can no longer be reported, but a rejection must never turn into status 0
+        if case.get("dead_stdout") and want != "accept":
+            name, cmd = entry_points(d)[case["dead_stdout"] % 3]
+            rc, out, err = run_cli(cmd, ["verify-metadata", tf, uf], d, dead_stdout=True)
+            if rc == 0:
+                raise Violation("%s: with stdout closed by its reader, verify-metadata exits 0 although the library rejects (%s)" % (name, want),
+                                bucket="exit status 0 on rejected [dead stdout]")
+        # in-process use of the CLI function after other code in the same process loaded the same files and changed ITS
+        # copies in memory (never written back): the verdict is about the files
+        import contextlib
+        import io
+        from conda_content_trust import cli as CLI
+        for fn in (tf, uf):
+            try:
+                mine = C.load_metadata_from_file(fn)
+            except Exception:
+                continue
+            if isinstance(mine, dict) and isinstance(mine.get("signed"), dict):
+                mine["signed"]["version"] = 4242
+                mine["signed"]["in-memory-only"] = True
+                if isinstance(mine.get("signatures"), dict):
+                    mine["signatures"].clear()
+        buf = io.StringIO()
+        try:
+            with contextlib.redirect_stdout(buf), contextlib.redirect_stderr(io.StringIO()):
+                rc = CLI.cli(["verify-metadata", tf, uf])
+        except SystemExit as e:
+            rc = e.code
+        except Exception:
+            rc = 1
+        if (rc in (0, None)) != (want == "accept"):
+            raise Violation("cli(['verify-metadata', ...]) called in-process returns %r although the library verdict on the two FILES is %s "
+                            "(other code had loaded the files and modified its in-memory copies)" % (rc, want),
+                            bucket="in-process cli status vs verdict on files")
     finally:
         shutil.rmtree(d, ignore_errors=True)
     return {"nontrivial": True, "labels": ["kind=" + case["kind"], "flaw=" + str(case["flaw"]), "library=" + ("accept" if want == "accept" else "reject"),
